@@ -319,7 +319,7 @@ Definition translate_operand (o : operand) (i : irow) : res codepkg :=
   | ORelative v =>
       match Tables.rel i with
       | None => Diag 24
-      | Some opc => simple_pkg opc (if v_is_address v then v else VNone) (Tables.rel_sz i)
+      | Some opc => if v_is_address v then simple_pkg opc v (Tables.rel_sz i) else OTE
       end
   | OInherent => opt_op (Tables.inh i) (fun opc => simple_pkg opc VNone (Tables.inh_sz i))
   | OImmediate v => opt_op (Tables.imm i) (fun opc => simple_pkg opc v (Tables.imm_sz i))
